@@ -1108,3 +1108,70 @@ def c07(ctx):
     ctx.cov["exhaustive"] = True
     ctx.cov["rule"] = ("one evaluation = one complete truth table (op, wx, wy, wz) compared on both targets, or one wide (op, widths, target) "
                        "circuit on six boundary operand pairs; non-trivial = at least 4 operand bits; tables are exhaustive over operands")
+
+
+# ---------------------------------------------------------------------- C09
+OPT_CFG = """SPECIFICATION Spec
+CONSTANTS
+  NIn = 2
+  MaxGates = %d
+  Ops = %s
+  ShortCircuitOutputs = FALSE
+  XnorRuleWrong = %s
+%s
+CHECK_DEADLOCK FALSE
+"""
+ALL_GATE_OPS = '{"XOR", "XNOR", "AND", "OR", "INV"}'
+
+
+@prop("C09")
+def c09(ctx):
+    thorough = ctx.tier == "thorough"
+    ctx.build()
+    ctx.assumptions += ["circuit outputs are dedicated wires fed through identity gates (as ssa/circuitgen.go creates them); in Opt.tla "
+                        "output flags sit directly on gate wires",
+                        "the default configuration (Yao, no pruning, automatic multiplier threshold) is anchored to the language semantics by "
+                        "the interpreter's predictions; the other configurations must agree with it on every explored input"]
+    # (M) the passes as a transition system over all small graphs
+    ctx.tlc_expect_ok("Opt", "Opt_mc.cfg", name="opt-mc-2", timeout=3000, cfg_text=OPT_CFG % (2, ALL_GATE_OPS, "FALSE", "INVARIANT Safety"))
+    if thorough:
+        ctx.tlc_expect_ok("Opt", "Opt_mc.cfg", name="opt-mc-3", timeout=3400, heap="16g",
+                          cfg_text=OPT_CFG % (3, '{"XOR", "AND", "INV"}', "FALSE", "INVARIANT Safety"))
+    else:
+        ctx.tlc_expect_ok("Opt", "Opt_mc.cfg", name="opt-sim-4", mode="sim", sim="num=3000", depth=20, workers=4, timeout=3000,
+                          cfg_text=OPT_CFG % (4, ALL_GATE_OPS, "FALSE", "INVARIANT Safety"))
+    r = ctx.tlc("Opt", "Opt_mc.cfg", name="opt-guard", cfg_text=OPT_CFG % (2, ALL_GATE_OPS, "TRUE", "INVARIANT Safety"))
+    if r["status"] != "invariant":
+        raise Broken("Opt.tla does not reject a wrong XNOR constant rule")
+    ctx.cov["spec_rejects_deviations"] = ["xnor-constant-rule"]
+    # (G) graphs through the real passes
+    g = ctx.tlc("OptGen", "Opt_gen.cfg", mode="gen", name="opt-gen", timeout=3000,
+                cfg_text=OPT_CFG % (2, ALL_GATE_OPS, "FALSE", "CONSTRAINT Emit\nCONSTRAINT Stop"))
+    if g["status"] != "ok" or not g["cases"]:
+        raise Broken("OptGen failed: %s\n%s" % (g["status"], g["out"][-2000:]))
+    graphs = g["cases"] if thorough else sample_cases(g["cases"], 4000, ctx.seed)
+    g3 = ctx.tlc("OptGen", "Opt_gen.cfg", mode="sim", workers=1, sim="num=%d" % (3000 if thorough else 300), depth=8, name="opt-gen-4",
+                 cfg_text=OPT_CFG % (4, ALL_GATE_OPS, "FALSE", "CONSTRAINT Emit\nCONSTRAINT Stop"))
+    graphs += [c for c in g3["cases"] if len(c["gates"]) >= 3][:(20000 if thorough else 1500)]
+    gf = os.path.join(ctx.tmp, "c09graphs.ndjson")
+    write_ndjson(gf, graphs)
+    gr = os.path.join(ctx.tmp, "c09gres.ndjson")
+    ctx.run_vh(["c09", "graphs", gf, gr], timeout=3400)
+    n = ctx.absorb(gr)
+    ctx.cov["traces_validated_against_impl"] += n
+    ctx.cov["graphs_replayed"] = len(graphs)
+    # program level: every configuration computes the same function
+    cases = mpcl_cases(ctx, "mpcl-gen-c09", "{3, 6, 8}", 5, 1500 if thorough else 150,
+                       kinds='{"const", "lit", "bin", "cmp", "logic", "neg", "shift", "cast", "if", "ifnest", "loop", "call"}',
+                       limit=1500 if thorough else 70)
+    cases += mpcl_cases(ctx, "mpcl-gen-c09w", "{4, 7, 13}", 4, 600 if thorough else 60, kinds='{"bin", "lit", "cmp", "cast", "if", "shift"}',
+                        limit=600 if thorough else 30)
+    cf = os.path.join(ctx.tmp, "c09cases.ndjson")
+    write_ndjson(cf, cases)
+    rf = os.path.join(ctx.tmp, "c09res.ndjson")
+    ctx.run_vh(["c09", "programs", cf, rf], timeout=3400)
+    ctx.absorb(rf)
+    ctx.cov["rule"] = ("one evaluation = one gate graph compiled under {prune on/off} x {Yao, GMW} and compared on every input with the "
+                       "original graph's truth table, or one program compiled under 14 configurations ({prune} x {multiplier thresholds 0, 8, 16, "
+                       "21, 64} x {Yao, GMW}) and compared on every input (<= 12/16 input bits) or 64 vectors; non-trivial = >= 2 gates / >= 3 statements")
+    ctx.check_drift()
